@@ -13,6 +13,7 @@
 (*                                              white-box: see TSent                       *)
 (*   {"ev":"replayed","n":2,"wal_last":57,"raft_last":57}   white-box: see TReplayed       *)
 (*   {"ev":"published","n":1,"pub":9,"saved":8}             white-box: see TPublished      *)
+(*   {"ev":"appended","n":2,"ents_last":70,"raft_last":66,"snap":66}  white-box: TAppended *)
 (*                                                                                         *)
 (* Silent steps are taken just in time (only when the next line is an answer or a read that *)
 (* needs it), which loses no linearization: a silent step commutes to the right over lines    *)
@@ -84,7 +85,16 @@ TReplayed == /\ IsEvent("replayed") /\ E.raft_last >= E.wal_last
 TPublished == /\ IsEvent("published") /\ E.pub <= E.saved
               /\ Consume /\ UNCHANGED <<linVars, reads>>
 
-TNext == TSent \/ TReplayed \/ TPublished \/ TReset \/ TInv \/ TOk \/ TFail \/ TRefused \/ TRead \/ TSettle \/ TLin \/ TLinZ
+(* White-box append rule (hooks verifStorage / storage.appended): when processReady is past  *)
+(* raftStorage.Append - and, for a Ready that carries a snapshot AND entries, past            *)
+(* ApplySnapshot - raft's log ends at or after the last new entry of that Ready (entries      *)
+(* appended before the snapshot is applied would be wiped by it).  The hooks report a Ready   *)
+(* whose log end is short, and (with raft_last = ents_last, as evidence that the case         *)
+(* occurred) every Ready with snapshot and entries.                                           *)
+TAppended == /\ IsEvent("appended") /\ E.raft_last >= E.ents_last
+             /\ Consume /\ UNCHANGED <<linVars, reads>>
+
+TNext == TSent \/ TReplayed \/ TPublished \/ TAppended \/ TReset \/ TInv \/ TOk \/ TFail \/ TRefused \/ TRead \/ TSettle \/ TLin \/ TLinZ
 TSpec == TInit /\ [][TNext]_tvars
 
 (* all replicas returned the same data after the barrier (independent of the silent steps) *)
